@@ -94,6 +94,11 @@ func c07random(rng *core.Rng, pfx string, maxLen int) []xMsg {
 		switch k := rng.Intn(100); {
 		case k < 22 || len(defS) == 0:
 			name := core.Pick(rng, xNames)
+			if len(defS) > 0 && rng.Intn(5) == 0 {
+				// a Parse that fails defines nothing: the name keeps resolving to what it did before
+				h = append(h, xMsg{K: "parse", Name: name, Query: "P " + id, Prog: xProg(id, rng.Intn(3))}, xMsg{K: "sync"})
+				break
+			}
 			h = append(h, xMsg{K: "parse", Name: name, Query: "P " + id, Prog: xProg(id, 3+rng.Intn(2)+10*rng.Intn(2))})
 			defS[name] = true
 		case k < 47:
